@@ -1,6 +1,6 @@
 ------------------------------- MODULE MC_C09 -------------------------------
 EXTENDS OpReduce, Json, TLC
-CONSTANTS Fams, MaxRank, MaxExt
+CONSTANTS Fams, MaxRank, MaxExt, LongShapes
 VARIABLES st
 P(c) == PrintT(<<"CASE", ToJson(c)>>)
 Tag(a) == IF a.must = "error" THEN "invalid" ELSE a.must
@@ -76,13 +76,29 @@ ExtremeAxisCases(shape) ==
       /\ \A op \in {"Softmax", "LogSoftmax"} : P(CaseRec("softmax", op, <<AI("axis", e)>>, <<X>>, MustError, <<"invalid", "extreme_axis">>))
       /\ \A op \in {"ReduceMax", "ReduceMin"} : P(CaseRec("reduce", op, <<AIs("axes", <<e>>)>>, <<X>>, MustError, <<"invalid", "extreme_axis">>))
 
+LongShapesQuick == {<<20001, 2>>, <<2, 20001>>}
+LongShapesThorough == {<<20001, 2>>, <<2, 20001>>, <<35001, 2>>, <<3, 23003>>}
+\* long tensors: results of many elements (no multiple of a block size) and long reduced axes
+LongCases(shape) ==
+   /\ \A axis \in {0, -1} :
+         LET attrs == <<AI("axis", axis), AI("keepdims", 0)>> X == Ties("f32", shape) s == SemArgMax(X, attrs) IN
+         P(CaseRec("long", "ArgMax", attrs, <<X>>, s, <<Tag(s), "long">>))
+   /\ \A op \in {"ReduceMax", "ReduceMin"}, axis \in {0, 1} :
+         LET attrs == <<AIs("axes", <<axis>>), AI("keepdims", 0)>> X == Dist("f32", shape) s == SemReduce(op, X, attrs) IN
+         P(CaseRec("long", op, attrs, <<X>>, s, <<Tag(s), "long">>))
+   /\ \A op \in {"Softmax", "LogSoftmax"} :
+         LET a == IF shape[1] > shape[2] THEN 1 ELSE 0 attrs == <<AI("axis", a)>> X == SoftX("f32", shape, a, 2) s == SemSoftmax(op, X, attrs) IN
+         P([CaseRec("long", op, attrs, <<X>>, s, <<Tag(s), "long">>) EXCEPT !.known = KnownSoftmax(op, X, attrs)])
+
 Init ==
+   \/ ("long" \in Fams /\ st \in [fam : {"long"}, shape : LongShapes, done : {FALSE}])
    \/ ("argmax" \in Fams /\ st \in [fam : {"argmax"}, shape : Shapes, done : {FALSE}])
    \/ ("reduce" \in Fams /\ st \in [fam : {"reduce"}, op : {"ReduceMax", "ReduceMin"}, shape : Shapes, done : {FALSE}])
    \/ ("softmax" \in Fams /\ st \in [fam : {"softmax"}, op : {"Softmax", "LogSoftmax"}, shape : Shapes, done : {FALSE}])
 Emit ==
    /\ ~st.done
-   /\ CASE st.fam = "argmax" -> ArgMaxCases(st.shape) /\ (Len(st.shape) = 2 => ArgMaxDt(st.shape)) /\ (Len(st.shape) <= 2 /\ st.shape[1] = 2 => ExtremeAxisCases(st.shape))
+   /\ CASE st.fam = "long" -> LongCases(st.shape)
+        [] st.fam = "argmax" -> ArgMaxCases(st.shape) /\ (Len(st.shape) = 2 => ArgMaxDt(st.shape)) /\ (Len(st.shape) <= 2 /\ st.shape[1] = 2 => ExtremeAxisCases(st.shape))
         [] st.fam = "reduce" -> ReduceCases(st.op, st.shape) /\ (Len(st.shape) = 2 => ReduceDt(st.op, st.shape))
         [] st.fam = "softmax" -> SoftCases(st.op, st.shape) /\ (st.op = "Softmax" => HugeCases(st.shape))
    /\ st' = [st EXCEPT !.done = TRUE]
